@@ -685,7 +685,17 @@ pub fn judge(
                     let mut found = false;
                     for o2 in owners.iter().rev() {
                         for o1 in owners.iter().rev() {
-                            if o1 < o2 && kinds[*o1] != kinds[*o2] && r[*o2] <= b[*o1] && !found {
+                            // the later one must not have seen the earlier one's target at all: when the same
+                            // assignment was also issued (and committed) before its read, the target was there to be
+                            // replaced and this explanation does not apply
+                            let first_commit_of_target = acked
+                                .iter()
+                                .copied()
+                                .filter(|o| kinds[*o] == kinds[*o1])
+                                .map(|o| b[o])
+                                .min()
+                                .unwrap_or(b[*o1]);
+                            if o1 < o2 && kinds[*o1] != kinds[*o2] && r[*o2] <= b[*o1] && r[*o2] <= first_commit_of_target && !found {
                                 found = true;
                                 findings.push((
                                     format!(
@@ -1410,6 +1420,18 @@ fn twin_order(cl: &Class) -> Vec<usize> {
 
 fn work_items(n: usize, repeat: bool) -> Vec<Vec<Kind>> {
     if !repeat {
+        if n == 3 {
+            // quick tier: the sequences of three in which one reference assignment is issued twice next to another
+            // assignment of the same reference (the smallest shape in which a reference written by one mutation is
+            // re-stamped by a second before a third replaces it)
+            let mut v = vec![];
+            for (a, b) in [(Kind::ReplRef, Kind::ReplRef2), (Kind::ReplRef2, Kind::ReplRef), (Kind::AddRef, Kind::ReplRef)] {
+                v.push(vec![a, a, b]);
+                v.push(vec![a, b, a]);
+                v.push(vec![b, a, a]);
+            }
+            return v;
+        }
         return tuples(n);
     }
     // with repetition (the same mutation issued twice): all sequences
@@ -1561,7 +1583,7 @@ pub fn run(args: &Args) -> i32 {
         return 0;
     }
     // simplest first: all pairs, then (thorough) all triples
-    let sizes: Vec<usize> = if thorough { vec![2, 3] } else { vec![2] };
+    let sizes: Vec<usize> = vec![2, 3];
     let mut out = Outcome::default();
     let mut tuples_total = 0;
     for size in &sizes {
@@ -1578,7 +1600,7 @@ pub fn run(args: &Args) -> i32 {
         bounds: json!({
             "kinds": KINDS.iter().map(|k| k.name()).collect::<Vec<_>>(),
             "mutations_per_schedule": sizes,
-            "tuples": if thorough { "all sequences, repetition allowed" } else { "all ordered tuples of distinct kinds" },
+            "tuples": if thorough { "all sequences, repetition allowed" } else { "all ordered pairs of distinct kinds + 9 sequences of three with a repeated reference assignment" },
             "ordered_tuples": tuples_total,
             "batch_partitions": "all compositions of n",
             "schedules": "all linear extensions",
